@@ -40,7 +40,8 @@ TABLE = [
     ("C09", r".*", r".*", ["teval_terminal"]),
     ("C10", r".*", r".*", ["teval_terminal"]),
     ("C12", r".*", r".*", ["output_options"]),
-    ("C13", r".*", r".*", ["radau_scalar_vector_tol"]),
+    ("C13", r".*", r"err\.|norm\.", ["duplication_invariance"]),
+    ("C13", r".*", r".*", ["radau_scalar_vector_tol", "duplication_invariance"]),
 ]
 _BUILT = {}
 
